@@ -27,6 +27,8 @@ def run(ctx, rep):
         },
     )
     pairing.rule_undo_only_what_was_done(ctx, rep, "C02-R12")
+    limits.rule_companion_counter_maintained(ctx, rep, "C02-R13")
+    recursion.rule_native_to_native_counted(ctx, rep, "C02-R14")
     rep.undecided += [
         "heap growth (out of the property's scope)",
         "the numeric relation between memory_limit and the depth at which the error fires",
